@@ -15,9 +15,16 @@ sys.path.insert(0, os.path.dirname(os.path.abspath(__file__)))
 import props as P
 
 
+RUN_TMP = None  # set by run_check: scratch directory of this run; data dirs of engine workers live below it
+
+
 def goenv():
     e = dict(os.environ)
     e.update(GOFLAGS="-mod=mod", GOPROXY="off", GOSUMDB="off", GOTOOLCHAIN="local", CGO_ENABLED=e.get("CGO_ENABLED", "1"))
+    if RUN_TMP:
+        # everything the harness and its worker processes create with os.MkdirTemp lands in the run directory and is
+        # removed with it, also when a worker was killed (watchdog) before it could clean up; nothing is left in /tmp
+        e["TMPDIR"] = RUN_TMP
     return e
 
 
@@ -513,7 +520,9 @@ def run_check(prop, tier, seed):
     shutil.rmtree(rundir, ignore_errors=True)
     os.makedirs(rundir)
     trim_go_cache()
-    global ORACLE
+    global ORACLE, RUN_TMP
+    RUN_TMP = os.path.join(rundir, "tmp")
+    os.makedirs(RUN_TMP, exist_ok=True)
     # 1+2. ONE critical section: regenerate Gen/* from REPO, build + audit the theorems against exactly
     # that Gen, and take a private copy of the oracle built from it (other runs may target other checkouts)
     with Lock("lake"):
